@@ -8,7 +8,7 @@ def str (l : List Char) : String := String.ofList l
 
 def tyOfJson (j : Json) : Option MdTy := do
   let fam ← Fam.ofString (← getStr j "fam")
-  pure { fam := fam, args := getNatList j "args" }
+  pure { fam := fam, args := getNatList j "args", coll := (getStr j "coll").bind W.ofString }
 
 def dfltOfJson (j : Json) : Option (Option Dflt) :=
   match j with
@@ -152,13 +152,13 @@ def handle (op : String) (j : Json) : Option Json :=
   | "diff.type" =>
     match tyOfJson j with
     | some t =>
-      let d := ddlTy t
-      some (obj [("ddl", d.render), ("refl", (reflTy d).render), ("known", Json.bool (known d)),
-                 ("cmp", Json.bool (compareType (reflTy d) d)), ("family", (family d).toString)])
+      let d := declTy t
+      some (obj [("ddl", (ddlTy t).render), ("refl", (reflTy d).render), ("known", Json.bool (known d)),
+                 ("cmp", Json.bool (compareType (reflTy d) (ddlTy t))), ("family", (family d).toString)])
     | none => some (errJ "bad-type")
   | "diff.cmptype" =>
     match tyOfJson (getObj j "a"), tyOfJson (getObj j "b") with
-    | some a, some b => some (obj [("cmp", Json.bool (compareType (reflTy (ddlTy a)) (ddlTy b)))])
+    | some a, some b => some (obj [("cmp", Json.bool (compareType (reflTy (declTy a)) (ddlTy b)))])
     | _, _ => some (errJ "bad-type")
   | "diff.default" =>
     match dfltOfJson (getObj j "d") with
